@@ -122,7 +122,7 @@ fn settle<S: SubLike>(
     Ok(())
 }
 
-#[derive(Clone, Copy, Debug)]
+#[derive(PartialEq, Eq, Clone, Copy, Debug)]
 pub enum Scen {
     PollSetShared,
     PollCloseShared,
@@ -152,7 +152,15 @@ pub enum Scen {
     /// a writer that never notifies (write guard only read, update_if -> false, set_if_not_eq(equal)) ||
     /// subscribe + first poll + get on another thread
     SubscribeVsQuietWriter,
+    /// drop accounting (process-wide table) for the races around the last owner
+    C20DropVsUpgrade,
+    C20DropVsUpgradeWithSubscriber,
+    C20TwoLastClonesAndWeak,
+    C20IntoSharedVsSubscriberDrop,
 }
+
+pub const C20_SCENS: &[Scen] =
+    &[Scen::C20DropVsUpgrade, Scen::C20DropVsUpgradeWithSubscriber, Scen::C20TwoLastClonesAndWeak, Scen::C20IntoSharedVsSubscriberDrop];
 
 pub const C01_SCENS: &[Scen] = &[Scen::SubscribeVsQuietWriter];
 
@@ -412,6 +420,79 @@ fn run_scen(sc: Scen, prefix: &[usize]) -> (SchedRun, V) {
             }
             drop(ob);
             (run, verdict)
+        }
+        Scen::C20DropVsUpgrade | Scen::C20DropVsUpgradeWithSubscriber | Scen::C20TwoLastClonesAndWeak => {
+            use crate::common::counted::{self, Counted};
+            let arena = counted::new_arena();
+            let ob = SharedObservable::new(Counted::new(arena, 0));
+            let weak = ob.downgrade();
+            let sub = if sc == Scen::C20DropVsUpgradeWithSubscriber { Some(ob.subscribe()) } else { None };
+            let second = if sc == Scen::C20TwoLastClonesAndWeak { Some(ob.clone()) } else { None };
+            let mut roles: Vec<Box<dyn FnOnce() + Send>> = vec![
+                Box::new(move || drop(ob)),
+                Box::new(move || {
+                    if let Some(h) = weak.upgrade() {
+                        let prev = h.set(Counted::new(arena, 1));
+                        drop(prev);
+                        let got = h.get();
+                        drop(got);
+                        drop(h);
+                    }
+                    drop(weak);
+                }),
+            ];
+            if let Some(c) = second {
+                roles.push(Box::new(move || drop(c)));
+            }
+            let run = run_schedule(roles, prefix, t_block());
+            if let Some(mut s) = sub {
+                let _ = poll_stream_once(&mut s);
+                let _ = s.get();
+                drop(s);
+            }
+            let (live, faults) = counted::finish(arena);
+            let v = if let Some(f) = faults.first() {
+                bad("C20", format!("{sc:?}: {f} ({} fault(s))", faults.len()))
+            } else if live != 0 && !run.stuck {
+                bad("C20", format!("{sc:?}: {live} value(s) still alive after every handle, weak reference and subscriber is gone"))
+            } else {
+                Ok(())
+            };
+            (run, v)
+        }
+        Scen::C20IntoSharedVsSubscriberDrop => {
+            use crate::common::counted::{self, Counted};
+            let arena = counted::new_arena();
+            let ob = Observable::new(Counted::new(arena, 0));
+            let s1 = Observable::subscribe(&ob);
+            let mut s2 = Observable::subscribe(&ob);
+            let run = run_schedule(
+                vec![
+                    Box::new(move || {
+                        let sh = Observable::into_shared(ob);
+                        let prev = sh.set(Counted::new(arena, 1));
+                        drop(prev);
+                        drop(sh);
+                    }),
+                    Box::new(move || drop(s1)),
+                    Box::new(move || {
+                        let _ = poll_stream_once(&mut s2);
+                        let _ = s2.next_now();
+                        drop(s2);
+                    }),
+                ],
+                prefix,
+                t_block(),
+            );
+            let (live, faults) = counted::finish(arena);
+            let v = if let Some(f) = faults.first() {
+                bad("C20", format!("{sc:?}: {f} ({} fault(s))", faults.len()))
+            } else if live != 0 && !run.stuck {
+                bad("C20", format!("{sc:?}: {live} value(s) still alive after the observable and its subscribers are gone"))
+            } else {
+                Ok(())
+            };
+            (run, v)
         }
         Scen::SubscribeVsQuietWriter => {
             let ob = SharedObservable::new(0u64);
@@ -2054,6 +2135,12 @@ fn sched_budget(p: &Params, quick: usize, thorough: usize) -> usize {
 
 fn want(p: &Params, part: &str) -> bool {
     p.part == "all" || p.part == part
+}
+
+/// C20 across threads: the races around the last owner with a drop-counted payload (the memory verdict for
+/// the same schedules comes from the Miri / TSan / ASan passes of the driver)
+pub fn run_c20_threads(p: &Params) -> Outcome {
+    run_directed("C20", C20_SCENS, p, sched_budget(p, 150, 1200))
 }
 
 pub fn run_c01(p: &Params) -> Outcome {
